@@ -722,7 +722,9 @@ impl Writer for UperWriter {
 
     #[inline]
     fn write_null<C: null::Constraint>(&mut self, _value: &Null) -> Result<(), Self::Error> {
-        Ok(())
+        // no content, but the field takes part in the presence / extension bookkeeping
+        self.write_bit_field_entry(false, true)?;
+        self.with_buffer(|_| Ok(()))
     }
 }
 
@@ -1407,7 +1409,9 @@ impl<B: ScopedBitRead> Reader for UperReader<B> {
 
     #[inline]
     fn read_null<C: null::Constraint>(&mut self) -> Result<Null, Self::Error> {
-        Ok(Null)
+        // no content, but the field takes part in the presence / extension bookkeeping
+        let _ = self.read_bit_field_entry(false)?;
+        self.with_buffer(|_| Ok(Null))
     }
 }
 
